@@ -491,6 +491,10 @@ func (f *wfFE) apply(c *Call) (error, *invoker) {
 		switch c.Kind {
 		case "lambda":
 			h = f.w.AddLambdaNode(c.Key, pooled(&f.feBase, "lam", func() *compose.Lambda { return mkLam(c.Key, fWS) }), opts...)
+		case "lamkey":
+			// a lambda with an output key: its output type is map[string]any, not WS (known finding F-C20i)
+			h = f.w.AddLambdaNode(c.Key, pooled(&f.feBase, "lam", func() *compose.Lambda { return mkLam(c.Key, fWS) }),
+				append(append([]compose.GraphAddNodeOpt(nil), opts...), compose.WithOutputKey("aa"))...)
 		case "pass":
 			h = f.w.AddPassthroughNode(c.Key, opts...)
 		case "subok":
@@ -511,6 +515,9 @@ func (f *wfFE) apply(c *Call) (error, *invoker) {
 			return nil, nil // no handle: the call cannot be written in Go (model: no-op)
 		}
 		switch c.In {
+		case "fromkey":
+			// the value under the output key of a lamkey node as the whole input
+			h.AddInput(c.From, compose.FromField("aa"))
 		case "dep":
 			h.AddDependency(c.From)
 		case "nodirect":
